@@ -279,7 +279,11 @@ func init() {
 		return fill(&pol, rng), fmt.Sprintf("lq=%d,lp=%d", lq, lp)
 	})
 	reg("structs.Vector[uint64]", func(p rlwe.Parameters, k [4]int, rng *rngs) (*structs.Vector[uint64], string) {
+		// 17000 > 16384: larger than what Vector.ReadFrom may allocate ahead of the data
 		v := make(structs.Vector[uint64], []int{0, 1, 2, 7, 8, 9, 33, 600}[mod(k[0], 8)])
+		if mod(k[3], 12) == 11 {
+			v = make(structs.Vector[uint64], 17000)
+		}
 		return fill(&v, rng), fmt.Sprintf("len=%d", len(v))
 	})
 	reg("structs.Vector[float64]", func(p rlwe.Parameters, k [4]int, rng *rngs) (*structs.Vector[float64], string) {
@@ -305,6 +309,9 @@ func init() {
 	})
 	reg("structs.Vector[uint8]", func(p rlwe.Parameters, k [4]int, rng *rngs) (*structs.Vector[uint8], string) {
 		v := make(structs.Vector[uint8], []int{0, 1, 3, 8, 17, 4200}[mod(k[0], 6)])
+		if mod(k[3], 12) == 11 {
+			v = make(structs.Vector[uint8], 140000) // > 131072: larger than what is allocated ahead of the data
+		}
 		for i := range v {
 			v[i] = uint8(word(rng.c))
 		}
@@ -312,6 +319,10 @@ func init() {
 	})
 	reg("structs.Vector[ring.Poly]", func(p rlwe.Parameters, k [4]int, rng *rngs) (*structs.Vector[ring.Poly], string) {
 		v := make(structs.Vector[ring.Poly], mod(k[0], 4))
+		if mod(k[2], 12) == 11 {
+			v = make(structs.Vector[ring.Poly], 6000) // many empty polynomials: more components than are pre-allocated
+			return &v, "len=6000(empty)"
+		}
 		for i := range v {
 			v[i] = ring.NewPoly(p.N(), mod(k[1]+i, p.MaxLevelQ()+1))
 		}
@@ -319,8 +330,13 @@ func init() {
 	})
 	reg("structs.Matrix[uint64]", func(p rlwe.Parameters, k [4]int, rng *rngs) (*structs.Matrix[uint64], string) {
 		m := make(structs.Matrix[uint64], mod(k[0], 4))
+		if mod(k[2], 12) == 11 {
+			m = make(structs.Matrix[uint64], 6000+mod(k[0], 4)) // more (empty) rows than are pre-allocated
+		}
 		for i := range m {
-			m[i] = make([]uint64, mod(k[1]+3*i, 10)) // ragged rows
+			if len(m) < 100 || i%5000 == 0 {
+				m[i] = make([]uint64, mod(k[1]+3*i, 10)) // ragged rows
+			}
 		}
 		return fill(&m, rng), fmt.Sprintf("rows=%d", len(m))
 	})
